@@ -144,7 +144,7 @@ def wellFormed (k hp sp : Nat) (names : List NameInfo) (srvs : List (Bytes × Se
   (match names with | x :: _ => x.str.isEmpty | [] => false) &&
   decide (names.length ≤ 160) && decide (srvs.length ≤ 8) && decide (pols.length ≤ 8) &&
   names.all (fun x => decide (x.mw.length = names.length) && decide (x.hm.length = names.length)) &&
-  nodupB (names.map (·.str)) &&
+  nodupB (names.map fun x => lowerB x.str) &&
   nodupB (srvs.map (·.1)) &&
   srvs.all (fun s => serverNamesOk names.length s.2) &&
   pols.all (fun p => p.subjects.all (· < names.length)) &&
